@@ -7,6 +7,7 @@ S->C: Gen_Quantity behaviours (TLC -simulate; every candidate successor is emitt
 """
 from __future__ import annotations
 
+import math
 import operator
 import random
 
@@ -93,6 +94,16 @@ def replay(chk, behs, equal_mags, rng):
         # q2 is built in q1's unit (equal: bit-identical magnitude; different: 1.4 x, i.e. MagA1 < MagA2 as in the spec)
         # and then displayed in its own initial unit
         q = {"q1": real[b["d0"]["q1"]](x1), "q2": real[b["d0"]["q1"]](x2), "q3": real[b["d0"]["q3"]](x1)}
+        if not equal_mags and bi % 3 == 0 and q["q1"].raw_value != 0:
+            # neighbours: q2's magnitude is the NEXT float above q1's (what the "same" value reached through another unit
+            # looks like: 100 m vs 10000 cm).  Different magnitudes are different quantities: not equal, strictly ordered,
+            # and whatever == says must agree with < and with hashing
+            base = next(UA.unit_enum(un_) for un_ in dims[dimA]
+                        if UA.unit_enum(un_)(1.0).raw_value == 1.0 and UA.unit_enum(un_)(2.0).raw_value == 2.0)
+            q["q2"] = base(math.nextafter(q["q1"].raw_value, math.inf))
+            if q["q2"].raw_value != math.nextafter(q["q1"].raw_value, math.inf):
+                raise core.MachineryError("binding: could not build the neighbouring magnitude")
+            chk.stratum("neighbouring_magnitudes")
         raw0 = {k: v.raw_value for k, v in q.items()}          # magnitudes at construction time
         q["q2"].convert(real[b["d0"]["q2"]])
         if q["q2"].raw_value != raw0["q2"]:
@@ -165,6 +176,10 @@ def replay(chk, behs, equal_mags, rng):
                 if real_sign != want:
                     raise core.MachineryError(f"binding: spec order {want} vs real magnitudes {raw0[qn]} {raw0[op['r']]}")
                 exp = {"==": want == 0, "!=": want != 0, "<": want < 0, "<=": want <= 0, ">": want > 0, ">=": want >= 0}
+                # whatever == answers, equal quantities hash equally
+                oeq, oh1, oh2 = impl.outcome(operator.eq, obj, r_), impl.outcome(hash, obj), impl.outcome(hash, r_)
+                if oeq[0] == "ok" and bool(oeq[1]) and oh1[0] == "ok" and oh2[0] == "ok" and oh1[1] != oh2[1]:
+                    chk.violation("C13.EqualQuantitiesHashDifferently", {**k, "via": "=="}, {**det, "magnitudes": [raw0[qn], raw0[op["r"]]]})
                 for sym, f in (("==", operator.eq), ("!=", operator.ne), ("<", operator.lt), ("<=", operator.le),
                                (">", operator.gt), (">=", operator.ge)):
                     o = impl.outcome(f, obj, r_)
@@ -226,7 +241,7 @@ def run(chk: core.Check, replay_path=None, **_):
         replay(chk, behs, ma2 == 5, rng)
         chk.sample({"behaviour": behs[0]})
     core.reset_world()
-    chk.require_strata(["op_Convert", "op_Shl", "op_UnitCall", "op_GetIn", "op_Cmp", "op_Hash", "op_Show", "op_Pass",
+    chk.require_strata(["neighbouring_magnitudes", "op_Convert", "op_Shl", "op_UnitCall", "op_GetIn", "op_Cmp", "op_Hash", "op_Show", "op_Pass",
                         "foreign_read", "foreign_redisplay", "hash_equal_pair"])
     chk.exhaustive = False
     chk.rule.append("design: Quantity.tla exhaustively to depth 3/4 (equal and different magnitudes); spec->code: TLC-simulated "
